@@ -322,7 +322,9 @@ class IntelligentSwitch(Component):
 
     def close(self, dt: Time):
         """
-        Closes the disconnector if the state of the intelligent switch is OK
+        Closes the disconnector. A failed intelligent switch is closed
+        manually and sent to repair, one that is already being repaired
+        is closed manually by the repair crew
 
 
         Parameters
@@ -335,11 +337,13 @@ class IntelligentSwitch(Component):
         None
 
         """
-        if not self.state == IntelligentSwitchState.REPAIR:
-            if self.state == IntelligentSwitchState.OK:
-                self.disconnector.close()
-            elif self.state == IntelligentSwitchState.FAILED:
-                self.repair_close(dt)
+        if self.state == IntelligentSwitchState.REPAIR:
+            # Repair crew is present, they close the disconnector manually
+            self.disconnector.close()
+        elif self.state == IntelligentSwitchState.OK:
+            self.disconnector.close()
+        elif self.state == IntelligentSwitchState.FAILED:
+            self.repair_close(dt)
 
     def update_fail_status(self, dt: Time):
         """
